@@ -169,7 +169,7 @@ int main(int argc, char **argv)
       auto it = singles.find(k);
       if (it == singles.end()) {
         Trace t = run_case(Case{{b}, {n}, st, L, tsf_d2}, r);
-        if (!t.ok) { fprintf(stderr, "HARNESS-ERROR: single-bias configuration rejected (%s n=%d): %s\n", BNAME[b], n, t.err.c_str()); exit(2); }
+        if (!t.ok) { fprintf(stderr, "HARNESS-ERROR: single-bias configuration rejected (%s n=%d): %s\n", BNAME[b], n, t.err.c_str()); exit(3); }
         it = singles.insert({k, t}).first;
       }
       return it->second;
@@ -178,7 +178,7 @@ int main(int argc, char **argv)
       Case const &c = cases[ci];
       r.count("evaluations");
       Trace t = run_case(c, r);
-      if (!t.config_ok) { fprintf(stderr, "HARNESS-ERROR: configuration rejected %s: %s\n", c.json().c_str(), t.err.c_str()); exit(2); }
+      if (!t.config_ok) { fprintf(stderr, "HARNESS-ERROR: configuration rejected %s: %s\n", c.json().c_str(), t.err.c_str()); exit(3); }
       if (!t.ok) {
         // every member runs without error on its own (checked by single()), so an error here is an effect of the combination
         for (size_t i = 0; i < c.members.size(); i++) single(c.members[i], c.tsf[i], c.start, c.tsf_d2);
